@@ -684,6 +684,12 @@ func (f *frame) typeAssert(x *ssa.TypeAssert) {
 		}
 	}
 	okd := vc.define("ta.ok", "Bool", ok)
+	if _, isIface := at.Underlying().(*types.Interface); !isIface && !isRefLike(at) {
+		// a value of a non-pointer type lives in a box: a real (positive, allocated) object of the model
+		al := vc.lookup(f.st, "alloc", allocSort)
+		f.assume(implies(okd, and(sx(">", sx("i-val", v), "0"), sx("select", al, sx("i-val", v)))))
+		vc.assumed["interface values of non-pointer dynamic type hold an allocated box (model invariant)"] = true
+	}
 	if x.CommaOk {
 		r := vc.define(x.Name(), vc.sortOf(at), ite(okd, res, vc.zeroOf(at)))
 		f.assume(vc.typeFacts(r, at, f.st))
